@@ -42,7 +42,10 @@ def finite_max(d):
 def brute(src, tgt, excluded, src_ex, tgt_ex):
     """All valid matrices (as tuples of rows) for the statement's definition."""
     ns, nt = len(src), len(tgt)
-    fins = [finite_max(d) for d, _ in src + tgt if finite_max(d) is not None]
+    # limit on parallel connections: the largest finite degree among the connectors present in this pattern, at least 2
+    # (an absent connector does not influence the others: the same rule as specsem.valid_matrices)
+    present = [d for (d, _), e in zip(src, src_ex) if e] + [d for (d, _), e in zip(tgt, tgt_ex) if e]
+    fins = [finite_max(d) for d in present if finite_max(d) is not None]
     par = max([2] + fins)
     lim = np.zeros((ns, nt), dtype=int)
     for i, (ds, rs) in enumerate(src):
@@ -96,6 +99,18 @@ def settings_space(tier, seed):
         elif k % 3 == 2:
             ex = ((0, 0), (1, 1)) if rng.random() < 0.5 else ((0, 1),)
         out.append(([rng.choice(TYPES), rng.choice(TYPES)], [rng.choice(TYPES), rng.choice(TYPES)], ex))
+    # finite degrees up to 3 (the default limit on parallel connections is the largest finite degree, at least 2):
+    # gapped lists, ranges whose minimum is below their maximum
+    wide = [(d, r) for d in (('list', (1, 3)), ('range', 0, 3), ('list', (3,)), ('range', 2, 3), ('list', (0, 3))) for r in (True, False)]
+    for w in wide:
+        for t in TYPES + wide:
+            out.append(([w], [t], ()))
+            out.append(([t], [w], ()))
+    rw = random.Random(4343)
+    for _ in range(120 if tier == 'quick' else 600):
+        ns, nt = rw.choice([(1, 2), (2, 1), (2, 2)])
+        nodes = [rw.choice(wide) if rw.random() < 0.5 else rw.choice(TYPES) for _ in range(ns + nt)]
+        out.append((nodes[:ns], nodes[ns:], ()))
     if tier == 'thorough':
         r2 = random.Random(9000 + seed)
         for _ in range(300):
